@@ -403,6 +403,9 @@ def _known(y, ty, built):
                 bad.append('union-none-passthrough')
                 return
             same = [m for m in a if _same_shape(v, m)]
+            if dataclasses.is_dataclass(v):
+                # an instance names its member exactly
+                same = [m for m in a if m['k'] == 'cls' and m['info']['name'] == type(v).__name__]
             if len(same) == 1:
                 walk(v, same[0])
                 return
